@@ -150,3 +150,8 @@ mut("pay-read-string", ["C06", "C19"], [(SQL, "history_segment: r.get(\"history_
 mut("pay-slice", ["C06"], [(AS, "        body.extend_from_slice(&chunk);", "        body.extend_from_slice(&chunk[..chunk.len().min(65536)]);")], "C06.ACCUM", "chunk truncated")
 mut("pay-skip-chunk", ["C06"], [(AV, "        body.extend_from_slice(&chunk);", "        if chunk.len() == 1 {\n            continue;\n        }\n        body.extend_from_slice(&chunk);")], "C06.ACCUM", "one-byte chunks skipped")
 mut("pay-bind-text", ["C06", "C19"], [(SQL, "                StoredUuid(parent_version_id),\n                history_segment\n            ]", "                StoredUuid(parent_version_id),\n                String::from_utf8_lossy(&history_segment).into_owned()\n            ]")], "C06.BLOB", "bound as text")
+
+# ---- handler -> operation argument wiring
+mut("hargs-parent-from-client", ["C02", "C09", "C14"], [(AV, ".add_version(client_id, parent_version_id, body.to_vec())", ".add_version(client_id, client_id, body.to_vec())")], "H-ARGS", "client id used as the parent version id")
+mut("hargs-snapshot-swapped", ["C09", "C10", "C14"], [(AS, ".add_snapshot(client_id, version_id, body.to_vec())", ".add_snapshot(version_id, client_id, body.to_vec())")], "S-CLIENTID", "client id and version id swapped (both Uuid)")
+mut("nostate-cache-in-server", ["C09", "C03", "C07"], [(SRV, "pub struct Server {\n    config: ServerConfig,", "pub struct Server {\n    last_seen: std::sync::Mutex<std::collections::HashMap<Uuid, Uuid>>,\n    config: ServerConfig,"), (SRV, "        Self {\n            config,\n            storage: Box::new(storage),\n        }", "        Self {\n            last_seen: Default::default(),\n            config,\n            storage: Box::new(storage),\n        }")], "C03.NOSTATE", "shared mutable state added to Server")
